@@ -10,12 +10,18 @@
 
 #if !defined REPLAY
 static size_t g_n;
+static size_t g_w;		/* witness slot */
+static uint64_t g_wval;		/* what the filler put there */
 static size_t h_fill(echs_instant_t *restrict tgt, size_t nti, rrulsp_t rr)
 {
 	size_t n = nondet_size_t();
-	(void)tgt;
 	__CPROVER_assume(n <= nti && (rr->count < 0 || n <= (size_t)rr->count));
 	g_n = n;
+	if (g_w < n) {
+		/* some occurrence in wall-clock terms; bit 0 tells the zone stub whether
+		 * its offset differs from the proto offset */
+		tgt[g_w].u = g_wval;
+	}
 	return n;
 }
 size_t rrul_fill_yly(echs_instant_t *restrict tgt, size_t nti, rrulsp_t rr) { return h_fill(tgt, nti, rr); }
@@ -26,7 +32,10 @@ size_t rrul_fill_Hly(echs_instant_t *restrict tgt, size_t nti, rrulsp_t rr) { re
 size_t rrul_fill_Mly(echs_instant_t *restrict tgt, size_t nti, rrulsp_t rr) { return h_fill(tgt, nti, rr); }
 size_t rrul_fill_Sly(echs_instant_t *restrict tgt, size_t nti, rrulsp_t rr) { return h_fill(tgt, nti, rr); }
 echs_instant_t echs_instant_rescale(echs_instant_t i, echs_scale_t s) { (void)s; return i; }
-int echs_tzob_offs(echs_tzob_t z, echs_instant_t i, int x) { (void)z; (void)i; (void)x; return 0; }
+/* zone stub: the proto offset is 0; instants with bit 0 set lie on the other side of a transition (+3600) */
+int echs_tzob_offs(echs_tzob_t z, echs_instant_t i, int x) { (void)z; (void)x; return (i.u & 1ULL) ? 3600 : 0; }
+/* echs_instant_add by a marking stub: shifting by (proto offset - own offset) = -3600 s sets bit 1 */
+echs_instant_t echs_instant_add(echs_instant_t bas, echs_idiff_t add) { if (add.d == -3600000) { bas.u |= 2ULL; } else { bas.u |= 4ULL; } return bas; }
 void echs_instant_sort(echs_instant_t *restrict in, size_t nin) { (void)in; (void)nin; }
 #endif
 
@@ -37,7 +46,11 @@ void h_C16_refill(void)
 	IN_RANGE(int, count, -1, 300);
 	IN_RANGE(unsigned, freq, 1, 7);
 	IN(uint64_t, from);
+	IN_RANGE(size_t, w, 0, 63);
+	IN(uint64_t, wval);
 	ASSUME(from != 0ULL);
+	ASSUME((wval & 6ULL) == 0ULL && wval != 0ULL);
+	g_w = w, g_wval = wval;
 	memset(&g_s, 0, sizeof(g_s));
 	g_s.e.from.u = from;
 	g_s.rrul.freq = (echs_freq_t)freq;
@@ -55,6 +68,10 @@ void h_C16_refill(void)
 			SENTINEL("refill full batch");
 		} else {
 			ASSERT(g_s.e.from.u == 0ULL, "refill: a short batch marks the end of the stream");
+		}
+		if (w < deliv) {
+			ASSERT(g_s.cch[w].u == (wval | ((wval & 1ULL) ? 2ULL : 0ULL)), "refill: every delivered occurrence whose zone offset differs from the proto offset is corrected by exactly that difference, the others are left alone (witness slot)");
+			if ((wval & 1ULL) && w + 1U == deliv) { SENTINEL("refill corrects the last delivered slot"); }
 		}
 		ASSERT(count < 0 ? g_s.rrul.count == count : g_s.rrul.count == count - (int)deliv, "refill: COUNT goes down by exactly the number of occurrences delivered");
 		SENTINEL("refill batch");
